@@ -424,15 +424,25 @@ Definition msg_is_request (m : msg) : bool :=
   | _ => false
   end.
 
+(* object ids pairwise different (a repeated id is merged into one list-valued dict entry by the
+   decoder, which can reorder the objects) *)
+Fixpoint distinct_ids (objs : list (Z * bytes)) : bool :=
+  match objs with
+  | [] => true
+  | o :: t => negb (existsb (fun x => fst x =? fst o) t) && distinct_ids t
+  end.
+
 (* message kinds whose spec-conformant PDUs the decoders are PROVED to decode to the wire's fields.
    false = refuted (FIFO response, slave-id response, diagnostic requests with other than one data
-   word: see the _refuted theorems) or covered by the correspondence suite only (file records,
-   device-identification response) *)
+   word: see the _refuted theorems) or covered by the correspondence suite only (read-file-record
+   response; device-identification responses with a repeated object id or spanning several pages) *)
 Definition conforming_decode (m : msg) : bool :=
   match m with
   | MReadFifoRsp _ | MReportSlaveIdRsp _ _ => false
   | MDiagReq _ d => Nat.eqb (length d) 1
-  | MReadFileReq _ | MWriteFileReq _ | MWriteFileRsp _ | MReadFileRsp _ | MReadDevIdRsp _ _ _ _ _ => false
+  | MReadFileRsp _ => false
+  | MReadDevIdRsp _ _ _ _ objs =>
+      distinct_ids objs && (Pdu.zsum (map (fun kv => 2 + zlen (snd kv)) objs) <? 253 - 6)
   | _ => true
   end.
 
